@@ -311,7 +311,7 @@ def oer_sweep(run, model, jobs, rng, tier, name):
                 run.violation("harness:oer-encoder", {"what": "the check's own OER encoder and the model disagree on the canonical encoding",
                                                       "model_type": j["ts"], "value": j["vs"][:2000], "python": b0.hex()[:4000], "model": j["canon"][:4000]}, no_input=True)
                 continue
-            vs = P.sweep(j["segs"], rng, max_positions=j.get("maxpos"), nmix=(2 if tier == "quick" else 6))
+            vs = P.sweep(j["segs"], rng, max_positions=j.get("maxpos"), nmix=(2 if tier == "quick" else 6), wide_all=(tier != "quick"))
             if not vs:
                 run.count("oer_no_length_fields")
                 continue
